@@ -69,6 +69,8 @@ def mk(named, names, vals):
 
 
 def struct_case(cid, named, n, typing, forward):
+    spelled_not = forward == "not"     # the documented explicit spelling of the default (scalar) mode
+    forward = forward is True
     names = ["f%d" % i for i in range(n)] if named else [str(i) for i in range(n)]
     tys = field_types(n, typing)
     gen_decl = "<T>" if typing == "generic" else ""
@@ -78,7 +80,11 @@ def struct_case(cid, named, n, typing, forward):
     derives = [d for d, _ in BIN] + [d + "Assign" for d, _ in BIN] + [d for d, _ in MUL] + [d + "Assign" for d, _ in MUL] + \
               [d for d, _ in UN] + ["Sum"] + (["Product"] if forward else [])
     attrs = []
-    if forward:
+    if spelled_not:
+        for _, m in MUL:
+            attrs.append("#[%s(not(forward))]" % m)
+            attrs.append("#[%s_assign(not(forward))]" % m)
+    elif forward:
         for _, m in MUL:
             attrs.append("#[%s(forward)]" % m)
             attrs.append("#[%s_assign(forward)]" % m)
@@ -135,8 +141,9 @@ pub fn run(r: &mut R) {
     return Case(cid, mod, meta={"kind": "struct", "named": named, "n": n, "typing": typing, "forward": forward, "src": src})
 
 
-def scalar_only_case(cid, named, n, generic):
+def scalar_only_case(cid, named, n, generic, spelled=False):
     """Scalar Mul-like derives on a type whose fields support the operator with the scalar only."""
+    attrs = "".join("#[%s(not(forward))] #[%s_assign(not(forward))] " % (m, m) for _, m in MUL) if spelled else ""
     names = ["f%d" % i for i in range(n)] if named else [str(i) for i in range(n)]
     tys = ["T"] * n if generic else ["Ts<%d>" % i for i in range(n)]
     idx = [0] * n if generic else list(range(n))
@@ -150,15 +157,16 @@ def scalar_only_case(cid, named, n, generic):
         lines.append('{ let mut x = %s; ::core::ops::%sAssign::%s_assign(&mut x, Sc(7)); r.eq("%sAssign scalar on scalar-only fields", x, S%s); }' % (val, tr, m, tr, exp))
     mod = """use super::*;
 #[derive(Clone, Debug, PartialEq, %s)]
+%s
 pub struct S%s%s
 pub fn run(r: &mut R) {
     %s
-}""" % (", ".join("derive_more::" + d for d in derives), "<T>" if generic else "", body, "\n    ".join(lines))
-    src = "struct S%s%s [scalar Mul-like derives; field type implements Op<Scalar> only]" % ("<T>" if generic else "", body)
+}""" % (", ".join("derive_more::" + d for d in derives), attrs, "<T>" if generic else "", body, "\n    ".join(lines))
+    src = "%sstruct S%s%s [scalar Mul-like derives; field type implements Op<Scalar> only]" % (attrs[:20] + ("... " if attrs else ""), "<T>" if generic else "", body)
     return Case(cid, mod, meta={"kind": "struct", "named": named, "n": n, "typing": "scalar-only" + ("/generic" if generic else ""), "forward": False, "src": src})
 
 
-VK = {"unit": [], "t1": [0], "t2": [0, 1], "n2": [0, 1], "n1": [0], "t3": [0, 1, 2]}
+VK = {"unit": [], "t0": [], "n0": [], "t1": [0], "t2": [0, 1], "n2": [0, 1], "n1": [0], "t3": [0, 1, 2]}
 
 
 def enum_case(cid, kinds, typing, forward):
@@ -238,18 +246,26 @@ def run(chk, tier):
             for typing in ("distinct", "same", "generic"):
                 if typing == "distinct" and n > 3:
                     continue
-                for forward in (False, True):
+                for forward in (False, True) + (("not",) if n <= 2 and (thorough or typing == "same") else ()):
                     cases.append(struct_case("s%d" % len(cases), named, n, typing, forward))
     for named in (False, True):
         for n in (1, 2, 3):
             for generic in (False, True):
                 cases.append(scalar_only_case("s%d" % len(cases), named, n, generic))
+                if n <= 2:
+                    cases.append(scalar_only_case("s%d" % len(cases), named, n, generic, spelled=True))
     chk.part("structs", shapes="tuple/named x 1..%d fields" % nmax, typings=["distinct", "same", "generic<T>", "fields that support the operator with the scalar only (concrete and generic<T>)"],
-             modes=["scalar Mul-like", "forward"], programs=len(cases))
+             modes=["scalar Mul-like", "scalar Mul-like spelled `not(forward)`", "forward"], programs=len(cases))
     e0 = len(cases)
     vk = ["unit", "t1", "t2", "n2"] + (["n1", "t3"] if thorough else [])
-    for n in range(1, (3 if thorough else 2) + 1):
-        for kinds in itertools.product(vk, repeat=n):
+    combos = [k for n in range(1, (3 if thorough else 2) + 1) for k in itertools.product(vk, repeat=n)]
+    # variants with an EMPTY field list (`V()`, `V {}`) are not unit variants: they combine like any other variant
+    ek = ["t0", "n0"]
+    combos += [(a,) for a in ek] + [p for a in ek for b in (["unit", "t1", "n2"] + ek) for p in ((a, b), (b, a))]
+    combos = list(dict.fromkeys(combos))
+    vk = vk + ek
+    if True:
+        for kinds in combos:
             for typing in ("same", "distinct"):
                 for forward in (False, True):
                     cases.append(enum_case("e%d" % len(cases), list(kinds), typing, forward))
